@@ -72,8 +72,8 @@ type mxCase struct {
 	Level  string
 	Mask   int
 	Family string // encode: numeric|alnum|byte|byte-eci|kanji; build: always "raw"
-	Vec    string `json:",omitempty"` // build: zero|ones|55|aa|count|bit
-	Len    int    // encode: number of characters; build: index of the single set bit for Vec=="bit"
+	Vec    string `json:",omitempty"` // build: zero|ones|55|aa|count|bit|cw
+	Len    int    // encode: number of characters; build: index of the single set bit (Vec "bit") or of the single non-zero codeword (Vec "cw")
 	Pat    int    // encode: content pattern (0,1: fixed pseudo patterns; >=1000: sweep starting at unit Pat-1000)
 }
 
@@ -493,7 +493,11 @@ func runMatrixCase(l *mc.Local, c mxCase) (class, what string) {
 		return "panic/" + site, fmt.Sprintf("%s: Encoder_encode panicked: %s", caseID(c), pm)
 	}
 	if err != nil || code == nil {
-		return "encode/error", fmt.Sprintf("%s: Encoder_encode refused a payload that fits the symbol (%d characters, capacity %d): %v", caseID(c), c.Len, capOf(fam, c.V, lv.ref), err)
+		cls := "encode/error"
+		if sb, e := qr.SegmentBits([]qr.Segment{{Mode: famModes[fam], Data: payload, ECI: map[bool]int{true: 1, false: -1}[fam == famByteECI]}}, c.V); e == nil && 8*qr.DataCodewords(c.V, lv.ref)-len(sb) < 4 {
+			cls = "encode/error/terminator-shortened" // fewer than 4 bits remain after the data
+		}
+		return cls, fmt.Sprintf("%s: Encoder_encode refused a payload that fits the symbol (%d characters, capacity %d): %v", caseID(c), c.Len, capOf(fam, c.V, lv.ref), err)
 	}
 	if code.GetVersion() == nil || code.GetVersion().GetVersionNumber() != c.V {
 		return "encode/version-hint", fmt.Sprintf("%s: requested version %d, QRCode reports %v", caseID(c), c.V, code.GetVersion())
@@ -550,6 +554,9 @@ func vector(c mxCase) []byte {
 	}
 	if c.Vec == "bit" {
 		cw[c.Len/8] = 0x80 >> uint(c.Len%8)
+	}
+	if c.Vec == "cw" { // one codeword with an asymmetric bit pattern, all others zero
+		cw[c.Len] = 0xB1
 	}
 	return cw
 }
@@ -705,11 +712,30 @@ func flushMatrixFailures() {
 		classes = append(classes, c)
 	}
 	sort.Strings(classes)
+	// versions on which a function pattern, the format or the version information is wrong:
+	// there a data-region mismatch is the expected consequence (displaced or overwritten
+	// modules shift the whole codeword stream) and is folded into that class's violation
+	displaced := map[int]bool{}
+	for class, recs := range failed {
+		if class != regClass[regData] {
+			for t := range recs {
+				displaced[t.v] = true
+			}
+		}
+	}
+	folded := 0
 	for _, class := range classes {
 		recs := failed[class]
 		var F, T []tuple
 		for t := range recs {
+			if class == regClass[regData] && displaced[t.v] {
+				folded++
+				continue
+			}
 			F = append(F, t)
+		}
+		if len(F) == 0 {
+			continue
 		}
 		for t := range tested {
 			if strings.HasSuffix(class, "version-info") && t.v < 7 {
@@ -745,8 +771,11 @@ func flushMatrixFailures() {
 				chk.Violation(key, fmt.Sprintf("%s [%d failing (version, level, mask, family) combinations in this class]", r.what, len(F)), r.c)
 				return
 			}
+			// a dimension enters the key only if the failure is confined to a few of its values
+			// (a table row, one mask predicate, one level's column); a defect that shows on many
+			// versions or masks is a defect of the construction, not of a row
 			pf, pt := proj(F, d), proj(T, d)
-			specific := len(pf) < len(pt)
+			specific := len(pf) < len(pt) && len(pf) <= 3
 			if d == 3 {
 				specific = len(pf) == 1 && len(pt) > 1
 			}
@@ -759,6 +788,9 @@ func flushMatrixFailures() {
 			}
 		}
 		rec(nil, F, T, 0)
+	}
+	if folded > 0 {
+		chk.Note(fmt.Sprintf("%d (version, level, mask, family) combinations in which only data modules differ were folded into the function-pattern / format / version information violations of the same versions", folded))
 	}
 	failed = map[string]map[tuple]failRec{}
 }
@@ -790,7 +822,10 @@ func runBuildMatrix() {
 			jobs = append(jobs, job{v, li, -1, -1})
 		}
 	}
-	bitVersions := map[int]bool{1: true, 2: true, 7: true, 14: true, 40: true}
+	// single-bit streams: every bit of versions 1..20 (quick: of five versions); single-codeword
+	// streams (0xB1 in one codeword) for every codeword of versions 21..40 (thorough)
+	bitVersions := map[int]bool{1: true, 2: true, 7: true, 14: true, 21: true}
+	const bitMaxV = 20
 	for v := 1; v <= 40; v++ {
 		if chk.Quick() && !bitVersions[v] {
 			continue
@@ -804,8 +839,9 @@ func runBuildMatrix() {
 			jobs = append(jobs, job{v, v % 4, lo, hi})
 		}
 	}
-	name := "MatrixUtil_buildMatrix on raw codeword streams: all 160 (version,level) x 8 masks x {all-zero, all-ones, 0x55, 0xAA, counting}; every single-bit stream for versions " +
-		map[bool]string{true: "{1,2,7,14,40}", false: "1..40"}[chk.Quick()] + " (versions 1,2: all 8 masks; others: mask = bit index mod 8)"
+	name := "MatrixUtil_buildMatrix on raw codeword streams: all 160 (version,level) x 8 masks x {all-zero, all-ones, 0x55, 0xAA, counting}; " +
+		map[bool]string{true: "every single-bit stream for versions {1,2,7,14,21}", false: "every single-bit stream for versions 1..20, every single-codeword (0xB1) stream for versions 21..40"}[chk.Quick()] +
+		" (versions 1,2: all 8 masks; others: mask = index mod 8)"
 	chk.Range(name, len(jobs),
 		func(i int) string { return fmt.Sprint(jobs[i]) },
 		func(l *mc.Local, i int) {
@@ -829,11 +865,18 @@ func runBuildMatrix() {
 				return
 			}
 			for b := j.lo; b < j.hi; b++ {
-				for mask := 0; mask < 8; mask++ {
-					if j.v > 2 && mask != b%8 {
+				vec, idx := "bit", b
+				if !chk.Quick() && j.v > bitMaxV {
+					if b%8 != 0 {
 						continue
 					}
-					c := mxCase{Kind: "build", V: j.v, Level: lv.name, Mask: mask, Family: "raw", Vec: "bit", Len: b}
+					vec, idx = "cw", b/8
+				}
+				for mask := 0; mask < 8; mask++ {
+					if j.v > 2 && mask != idx%8 {
+						continue
+					}
+					c := mxCase{Kind: "build", V: j.v, Level: lv.name, Mask: mask, Family: "raw", Vec: vec, Len: idx}
 					cls, w := runBuildVector(l, c, j.li, base(mask))
 					report(l, cls, w, c)
 				}
@@ -974,7 +1017,7 @@ func runCharacterSweeps() {
 // runAllLengths: every payload length 1..capacity (every terminator / bit padding / pad
 // codeword situation) for every family.
 func runAllLengths() {
-	maxV := chk.Pick(9, 24)
+	maxV := chk.Pick(9, 20)
 	const edge = 48
 	type job struct{ v, li, fam, lo, hi int }
 	var jobs []job
